@@ -23,6 +23,9 @@ func Emit(out *wh.Out, res *Result) {
 	for _, l := range res.TopicStreams() {
 		out.Case(l, "ok")
 	}
+	if l := res.RegStream(); l != "" {
+		out.Case(l, "ok")
+	}
 	out.Case(res.TopTrace(), "ok")
 	out.Add("events", len(res.Events))
 	for _, e := range res.Events {
@@ -40,6 +43,9 @@ func Emit(out *wh.Out, res *Result) {
 	for _, s := range res.Stuck {
 		out.Note("STUCK: " + s + " :: " + res.Sc.Describe())
 		out.Count("stuck")
+	}
+	if len(res.Stuck) > 0 {
+		out.Flush()
 	}
 	if res.Leftover > 0 {
 		out.Note("LEFTOVER goroutine: " + strings.ReplaceAll(res.LeftDump, "\n", " | "))
